@@ -1,3 +1,4 @@
+\* documentation only: the code before fixes F6/F6b/F6c (Fixed = FALSE) violates these clauses at design level
 \* exhaustive: one provider on two chains, one delegator, one validator, <= 5 operations
 CONSTANTS
   Provs = {"p1"}
